@@ -92,7 +92,7 @@ def run(ctx):
   ctx.borrow(c17.rule_stateless, "R-C11-COMB", lambda r: r.where.endswith("BatchMultiplyG"))
   ctx.expect("R-C11-COMB", 4, "reduction, multiplier, tiling, Horner")
   ctx.expect("R-C11-SCALAR", 2, "Multiply and MultiplyAffine")
-  ctx.expect("R-C11-FORMULA", 15, "15 formula blocks")
+  ctx.expect("R-C11-FORMULA", 16, "16 formula blocks")
   ctx.expect("R-C11-DISPATCH", 12, "special-case tables")
   ctx.expect("R-C11-CURVES", 9, "nine curves")
 
@@ -251,6 +251,23 @@ def rule_formula(ctx):
       ctx.record(R, f.where, "(X/Z^2, Y/Z^3)", okx and oky, "affine coordinates" if okx and oky else "conversion differs: x %s y %s" % (rx, ry))
   if n != 1:
     ctx.incomplete(R, f.where, "(X/Z^2, Y/Z^3)", "expected one formula return")
+  # ---- AffineToJacobian: (x, y) -> (x, y, 1); infinity -> a triple with z = 0
+  f, w = walk(repo, "AffineToJacobian")
+  probs = []
+  rets = [e for e in w.events if e.kind == "return"]
+  fin = [e for e in rets if has_fact(e.facts, "cmp", "NotEq", p, INF)]
+  inf = [e for e in rets if has_fact(e.facts, "cmp", "Eq", p, INF)]
+  if not fin or not inf or len(fin) + len(inf) != len(rets):
+    probs.append("the conversion does not distinguish the point at infinity from finite points")
+  for e in fin:
+    v = e.data["value"]
+    if not (isinstance(v, Seq) and len(v.items) == 3 and as_poly(v.items[0]) == comp(p, 0) and as_poly(v.items[1]) == comp(p, 1) and as_poly(v.items[2]).as_int() == 1):
+      probs.append("a finite point is converted to %r, not to (x, y, 1)" % (v,))
+  for e in inf:
+    v = e.data["value"]
+    if not (isinstance(v, Seq) and len(v.items) == 3 and as_poly(v.items[2]).is_zero() and not as_poly(v.items[1]).is_zero()):
+      probs.append("the point at infinity is converted to %r, not to a triple with z = 0" % (v,))
+  ctx.record(R, f.where, "(x, y, 1)", not probs, "; ".join(sorted(set(probs))) or "finite -> (x, y, 1); infinity -> (1, 1, 0)")
   # ---- batched variants
   pl, ql, pts = P("param", "p_list"), P("param", "q_list"), P("param", "points")
   def stores(w, var=None):
